@@ -2,7 +2,8 @@ from driver import KaniUnit, VerusUnit, Harness as H
 ID = "C05"
 LEVEL = "proof"
 al = VerusUnit("al_astar", "al_astar", rlimit=60)
-UNITS = [al]
+dp = VerusUnit("c01_dispatch", "c01_dispatch", rlimit=60)
+UNITS = [al, dp]
 EXPLANATION = ("run_a_star + advance_search under contract: 'no path' is produced only by an exhausted queue with a target, and then (invariant EXP) the "
                "labelled set is closed under every edge the frontier model permitted and does not contain the target; a returned tree contains the target; "
                "without a target the search returns only at queue exhaustion with the closed labelled set")
